@@ -253,6 +253,11 @@ ReloadsOnChangeIn(u, form, base, fs, apps, target) ==
   {B(w.b /\ r.t = "dirs" /\ target \in ItemsOf(r)) :
      w \in Adm(u, form, base, "reload_on_file_change"), r \in ComponentDirs(u, form, base, fs, apps, TRUE)}
 
+\* Known deviation (classification only): the receiver installed by the start-up is a local function
+\* connected with a weak reference; it is gone when the start-up returns, no reload is ever triggered.
+DevReloadKey(u, form, base, fs, apps, target) ==
+  IF B(TRUE) \in ReloadsOnChangeIn(u, form, base, fs, apps, target) THEN "reload-on-file-change-true" ELSE ""
+
 \* Known deviation (classification only): entries of COMPONENTS.dirs are returned whether they
 \* exist or not (only the app-level directories are checked).
 DevDirsOne(d, ad, fs, apps, inc) ==
